@@ -74,7 +74,7 @@ CLAIMED = {
         "note": "the algebra of the Bodrato sequence above the split, the M4RM 8-table main loop (thorough, scalar configuration only), mzd_mul_mp and DJB are not decided.",
         "technique": _TB + "; modular shape contracts for the recursion",
     },
-    "C02": {"level": "model_checking", "text": "Bounded: mzd_echelonize_naive on 3x5 / 4x3 fully symbolic matrices and views (returned rank, exact RREF with full reduction, otherwise a REF with the same row space, against a spec-side textbook elimination); the row-update stage of M4RI elimination (mzd_process_rows, mzd_process_rows2..6) under stage contracts; mzd_find_pivot under its observer contract. Unbounded (layer S): mzd_echelonize_pluq for all shapes and ranks -- windows, conforming triangular solves, index ranges, releases, every non-pivot column solved once (full reduction), row i has exactly its first i+1 cells cleared and the pivot cell inside the matrix (no full reduction).",
+    "C02": {"level": "model_checking", "text": "Bounded: mzd_echelonize_naive on 3x5 / 4x3 fully symbolic matrices and views (returned rank, exact RREF with full reduction, otherwise a REF with the same row space, against a spec-side textbook elimination); the row-update stage of M4RI elimination (mzd_process_rows, mzd_process_rows2..6) under stage contracts (up to 24 pivot bits) plus a cut-point obligation on the pivot-bit read of mzd_process_rows2..6 for every k up to 64 (k symbolic); mzd_find_pivot under its observer contract. Unbounded (layer S): mzd_echelonize_pluq for all shapes and ranks -- windows, conforming triangular solves, index ranges, releases, every non-pivot column solved once (full reduction), row i has exactly its first i+1 cells cleared and the pivot cell inside the matrix (no full reduction).",
             "design_ref": "DESIGN.md 8.4, 8.5", "note": "mzd_echelonize_m4ri / the hybrid route as a whole and the algebra of the PLUQ-based route are not decided (measured intractable at 3x5); thorough tier lists them as explorations.", "technique": "modular shape / window / index-range / header-balance contracts for the orchestration (goto-instrument --dfcc --enforce-contract --replace-call-with-contract --apply-loop-contracts, all dimensions symbolic) + bounded model checking of the real entry points against spec-side linear algebra (cbmc, unwinding refinement, one concrete small shape per instance, all operand bits symbolic)"},
     "C03": {"level": "model_checking", "text": "Bounded: _mzd_pluq_naive and _mzd_ple_naive on 3x5 / 4x3 fully symbolic matrices with junk P/Q on entry (rank, LAPACK ranges, P L U Q = A certificate, zero storage); _mzd_compress_l (compression step of the block-recursive PLE) under its own stage contract incl. the whole-word regimes. Unbounded (layer S): _mzd_pluq on top of PLE and the checked wrappers mzd_pluq / mzd_ple for all shapes.",
             "design_ref": "DESIGN.md 8.4, 8.5", "note": "_mzd_ple_russian and the recursion of _mzd_ple are not decided (measured intractable / permutation data loops); thorough tier lists 2x3 explorations.", "technique": "modular shape / window / index-range / header-balance contracts for the orchestration (goto-instrument --dfcc --enforce-contract --replace-call-with-contract --apply-loop-contracts, all dimensions symbolic) + bounded model checking of the real entry points against spec-side linear algebra (cbmc, unwinding refinement, one concrete small shape per instance, all operand bits symbolic)"},
@@ -90,7 +90,7 @@ CLAIMED = {
 
 CLAIMED["C12"] = {
     "level": "model_checking",
-    "text": "The identical contracts / product specs are re-checked under generated configurations: SSE2 off (scalar fallbacks of row_add_offset, combine, _mzd_add), the smallest in-domain cache triple (4 KiB, 32 KiB, 64 KiB; strip heights, block size, default cutoff), both, and the thread-safe build (block and header caches off); table parameter k in {0,1,2,3,9} and cutoffs {0,1,64,100,4096} on the multiplication entry points; unbounded part: the Strassen orchestration is proved for an arbitrary cutoff and an arbitrary default cutoff (libm stub returns any value).",
+    "text": "The identical contracts / product specs are re-checked under generated configurations: SSE2 off (scalar fallbacks of row_add_offset, combine, _mzd_add), the smallest in-domain cache triple (4 KiB, 32 KiB, 64 KiB; strip heights, block size, default cutoff), both, and the thread-safe build (block and header caches off); table parameter k in {0,1,2,3,9} and cutoffs {0,1,64,100,4096} on the multiplication entry points; unbounded part: the Strassen orchestration is proved for an arbitrary cutoff and an arbitrary default cutoff (libm stub returns any value); the pivot-bit read of mzd_process_rows2..6 is decided for every table parameter k up to 64 (k symbolic, cut-point obligation).",
     "design_ref": "DESIGN.md 3/C12 and 8",
     "note": "bounded shapes inherited from the carriers; OpenMP on is not covered; only two cache triples are instantiated.",
     "technique": _TB + "; repeated per generated m4ri_config.h variant",
